@@ -6,6 +6,7 @@ Theorems over the query layer (`Model/Query.lean`, `Model/Api.lean`) for every d
 import WnVerif.Model.Api
 import WnVerif.Lemmas.DbAux
 import WnVerif.Props.C01
+import WnVerif.Props.C05
 namespace WnVerif.Props.C04
 open WnVerif.Db
 
@@ -513,5 +514,512 @@ theorem C04_frame_sense_relations_end_to_end (norm : String → String) (dr : Na
     cases typeOk db types o.type with
     | none => rfl
     | some n => simp only [e4]
+
+theorem frame_helper_fm {α β} (P' P : α → Bool) (f' f : α → Option β) (old rows : List α) (h1 : ∀ r ∈ rows, P' r = false)
+    (h2 : ∀ o ∈ old, P' o = P o) (h3 : ∀ o ∈ old, f' o = f o) :
+    ((old ++ rows).filter P').filterMap f' = (old.filter P).filterMap f := by
+  rw [List.filter_append]
+  have e1 : rows.filter P' = [] := by
+    rw [List.filter_eq_nil_iff]; intro r hr; simp [h1 r hr]
+  rw [e1, List.append_nil, List.filter_congr h2]
+  apply filterMap_congr_mem
+  intro o ho
+  exact h3 o (List.mem_filter.mp ho).1
+
+/-- **C04, frame for `senses()`, end to end**: adding any lexicon outside a non-empty selection `S`
+leaves `senses()` restricted to `S` — with any id / part-of-speech filter — unchanged, provided the
+stored senses point at stored entries and synsets -/
+theorem C04_frame_senses_end_to_end (norm : String → String) (dr : Nat) (db db' : Db) (l : Doc.Lexicon)
+    (h : addLexicon norm dr db l = .ok db') (S : List Nat) (hS : S ≠ [])
+    (hout : nextId (db.lexicons.map (·.rowid)) ∉ S)
+    (hfkE : ∀ o ∈ db.senses, o.entry ∈ db.entries.map (·.rowid))
+    (hfkY : ∀ o ∈ db.senses, o.synset ∈ db.synsets.map (·.rowid))
+    (id pos : Option String) (n a : Bool) :
+    findSenses db' id [] pos S n a = findSenses db id [] pos S n a := by
+  obtain ⟨t⟩ := addLexicon_split norm dr db db' l h
+  have hlexid : t.lexid = nextId (db.lexicons.map (·.rowid)) := (insertLexicon_frame _ _ _ _ _ t.hlex).2.2.1
+  obtain ⟨hE, _, srows, hSn, hFs, _⟩ := addLexicon_sense_table t
+  obtain ⟨yrows, _, hY, _, _⟩ := C01.addLexicon_synset_tables norm dr db db' l h
+  obtain ⟨erows, hEx⟩ : ∃ erows, db'.entries = db.entries ++ erows := by
+    obtain ⟨_, _, g3⟩ := insertLexicon_frame2 _ _ _ _ _ t.hlex
+    have e2 := (keepsF_insertSynsets l _ _ _ t.hsyn).1
+    have h3 := t.hent
+    unfold insertEntries at h3
+    obtain ⟨_, er, he, _⟩ := foldlM_rows1 (fun d => d.entries) (fun _ => ()) (entryStep _) (fun _ _ _ => True)
+      (fun b a b' hh => by
+        obtain ⟨r, hb, _⟩ := entryStep_ok _ b b' a hh
+        exact ⟨rfl, r, by rw [hb], trivial⟩) _ _ _ h3
+    exact ⟨er, by rw [hE, he, e2, g3]; rfl⟩
+  have hsnew : ∀ r ∈ srows, r.lex = t.lexid := Forall2.forall_right (fun _ _ hr => hr.2.1) hFs
+  have hEfind : ∀ o ∈ db.senses, db'.entries.find? (fun e => e.rowid == o.entry) = db.entries.find? (fun e => e.rowid == o.entry) := by
+    intro o ho
+    obtain ⟨e, he, her⟩ := List.mem_map.mp (hfkE o ho)
+    rw [hEx]; exact find?_append_of_exists _ _ _ ⟨e, he, by simp [her]⟩
+  have hYfind : ∀ o ∈ db.senses, db'.synsets.find? (fun x => x.rowid == o.synset) = db.synsets.find? (fun x => x.rowid == o.synset) := by
+    intro o ho
+    obtain ⟨y, hy, hyr⟩ := List.mem_map.mp (hfkY o ho)
+    rw [hY]; exact find?_append_of_exists _ _ _ ⟨y, hy, by simp [hyr]⟩
+  unfold findSenses
+  rw [hSn]
+  apply frame_helper_fm
+  · intro r hr
+    have : inLexOrAll S r.lex = false := by
+      rw [hsnew r hr, hlexid]
+      have h1 := mem_inLexOrAll S hS (nextId (db.lexicons.map (·.rowid)))
+      cases hb : inLexOrAll S (nextId (db.lexicons.map (·.rowid))) with
+      | false => rfl
+      | true => exact absurd (h1.mp hb) hout
+    simp [this]
+  · intro o ho
+    rw [hEfind o ho]
+    simp only [List.isEmpty_nil, Bool.true_or]
+  · intro o ho
+    unfold senseData
+    rw [hEfind o ho, hYfind o ho]
+
+/-! ### frame for `words()`: a plain lexicon added outside the selection changes nothing, whatever the form query -/
+
+/-- property of a freshly written form row: owned by the new lexicon, attached to an entry found under `c.lid` -/
+def NewForm (c : Ctx) (E : List REntry) (r : RForm) : Prop :=
+  r.lex = c.lexid ∧ ∃ x ∈ E, x.rowid = r.entry ∧ ∃ i, x.lex = c.lid i
+
+theorem addForm_rows' (db db1 : Db) (norm : String → String) (lexid er : Nat) (id : Option String) (form : String)
+    (script : Option String) (rank : Nat) (h : addForm db norm lexid er id form script rank = .ok db1) :
+    db1.entries = db.entries ∧ ∃ r, db1.forms = db.forms ++ [r] ∧ r.lex = lexid ∧ r.entry = er := by
+  unfold addForm at h
+  simp only [bind, Except.bind, pure, Except.pure] at h
+  split at h
+  · simp [throw, throwThe, MonadExcept.throw] at h
+  · simp only [Except.ok.injEq] at h; subst h; exact ⟨rfl, _, rfl, rfl, rfl⟩
+
+theorem entryRow_some (b : Db) (id : String) (lex er : Nat) (h : entryRow b id lex = some er) :
+    ∃ x ∈ b.entries, x.rowid = er ∧ x.lex = lex := by
+  unfold entryRow at h
+  cases hf : b.entries.find? (fun r => r.id == id && r.lex == lex) with
+  | none => simp [hf] at h
+  | some x =>
+    simp only [hf, Option.map_some, Option.some.injEq] at h
+    have hp := List.find?_some hf
+    simp only [Bool.and_eq_true, beq_iff_eq] at hp
+    exact ⟨x, List.mem_of_find?_eq_some hf, h, hp.2⟩
+
+theorem formStep_rows' (norm : String → String) (c : Ctx) (e : Entry) (b : Db) (fi : Form × Nat) (b' : Db)
+    (h : formStep norm c e b fi = .ok b') :
+    b'.entries = b.entries ∧ ∃ rs, b'.forms = b.forms ++ rs ∧ ∀ r ∈ rs, NewForm c b.entries r := by
+  unfold formStep at h
+  split at h
+  · simp only [Except.ok.injEq] at h; subst h; exact ⟨rfl, [], by simp, by simp⟩
+  · cases he : entryRow b e.id (c.lid e.id) with
+    | none => simp [he, need, bind, Except.bind] at h
+    | some er =>
+      simp only [he, need, bind, Except.bind] at h
+      obtain ⟨hE, r, hr, hl, hen⟩ := addForm_rows' _ _ _ _ _ _ _ _ _ h
+      obtain ⟨x, hx, hxr, hxl⟩ := entryRow_some b _ _ _ he
+      refine ⟨hE, [r], hr, ?_⟩
+      intro r' hr'
+      simp only [List.mem_singleton] at hr'
+      subst hr'
+      exact ⟨hl, x, hx, by rw [hxr, hen], e.id, hxl⟩
+
+theorem entryFormsStep_rows' (norm : String → String) (c : Ctx) (b : Db) (e : Entry) (b' : Db)
+    (h : entryFormsStep norm c b e = .ok b') :
+    b'.entries = b.entries ∧ ∃ rs, b'.forms = b.forms ++ rs ∧ ∀ r ∈ rs, NewForm c b.entries r := by
+  unfold entryFormsStep at h
+  simp only [bind, Except.bind] at h
+  cases hx : e.external with
+  | true =>
+    simp only [hx, Bool.not_true, Bool.false_eq_true, if_false, pure, Except.pure] at h
+    exact C05.foldlM_rowsP (fun d => d.forms) (fun d => d.entries) (formStep norm c e) (NewForm c)
+      (fun b a b' hh => formStep_rows' norm c e b a b' hh) _ _ _ h
+  | false =>
+    simp only [hx, Bool.not_false, if_true] at h
+    cases hl : e.lemma with
+    | none => simp [hl, need] at h
+    | some lem =>
+      simp only [hl, need] at h
+      cases he : entryRow b e.id (c.lid e.id) with
+      | none => simp [he] at h
+      | some er =>
+        simp only [he] at h
+        cases ha : addForm b norm c.lexid er none lem.form lem.script 0 with
+        | error x => simp [ha] at h
+        | ok b1 =>
+          simp only [ha] at h
+          obtain ⟨hE1, r, hr, hl', hen⟩ := addForm_rows' _ _ _ _ _ _ _ _ _ ha
+          obtain ⟨x, hx', hxr, hxl⟩ := entryRow_some b _ _ _ he
+          obtain ⟨hE2, rs, hrs, hls⟩ := C05.foldlM_rowsP (fun d => d.forms) (fun d => d.entries) (formStep norm c e) (NewForm c)
+            (fun b a b' hh => formStep_rows' norm c e b a b' hh) _ _ _ h
+          refine ⟨hE2.trans hE1, r :: rs, by rw [hrs, hr]; simp, ?_⟩
+          intro y hy
+          rcases List.mem_cons.mp hy with rfl | hy
+          · exact ⟨hl', x, hx', by rw [hxr, hen], e.id, hxl⟩
+          · have := hls y hy
+            rw [hE1] at this
+            exact this
+
+
+theorem addLexicon_forms_table' {norm : String → String} {dr : Nat} {db db' : Db} {l : Lexicon}
+    (t : AddTrace norm dr db db' l) :
+    ∃ rows, db'.forms = db.forms ++ rows ∧ ∀ r ∈ rows, NewForm t.ctx db'.entries r := by
+  obtain ⟨rows0, hr0, _⟩ := C05.addLexicon_forms_table t
+  obtain ⟨hE, _, _⟩ := addLexicon_sense_table t
+  have hform := t.hform
+  unfold insertForms at hform
+  obtain ⟨_, rs, hr, hP⟩ := C05.foldlM_rowsP (fun d => d.forms) (fun d => d.entries) (entryFormsStep norm t.ctx)
+    (NewForm t.ctx) (fun b e b' hh => entryFormsStep_rows' norm t.ctx b e b' hh) _ _ _ hform
+  -- forms are untouched before and after `_insert_forms`
+  let c : Ctx := t.ctx
+  let π : Db → List RForm := fun b => b.forms
+  have k1 : π t.d1 = π (updateLookups db l) := (insertLexicon_frame _ _ _ _ _ t.hlex).2.1
+  have k2 : π t.d2 = π t.d1 := keepsGF_insertSynsets π l c (fun p => by keepsG_step presupStep)
+    (by keepsG_step synsetStep) (by keepsG_step piliStep) _ _ t.hsyn
+  have k3 : π t.d3 = π t.d2 := keepsGF_insertEntries π l c (by keepsG_step entryStep) _ _ t.hent
+  have k5 : π t.d5 = π t.d4 := keepsGF_insertPronsTags π l c (fun _ _ _ => by keepsG_step pronStep)
+    (fun _ _ _ => by keepsG_step tagStep) _ _ t.hpt
+  have k6 : π t.d6 = π t.d5 := keepsGF_insertSenses π l c dr (fun _ => by keepsG_step senseStep)
+    (by keepsG_step adjStep) (fun _ => by keepsG_step countStep) _ _ t.hsen
+  have k7 : π t.d7 = π t.d6 := keepsGF_insertSbs π t.sbs c (by keepsG_step sbStep) (fun _ => by keepsG_step sbSenseStep) _ _ t.hsb
+  have k8 : π t.d8 = π t.d7 := keepsGF_insertRelations π l c (fun _ => by keepsG_step synRelStep)
+    (by keepsG_step senseRelStep) (by keepsG_step senseSynRelStep) _ _ t.hrel
+  have k9 : π db' = π t.d8 := keepsGF_insertDefsExamples π l c (fun _ => by keepsG_step defStep)
+    (fun _ => by keepsG_step senseExampleStep) (fun _ => by keepsG_step synsetExampleStep) _ _ t.hdx
+  refine ⟨rs, ?_, ?_⟩
+  · show π db' = _
+    rw [k9, k8, k7, k6, k5]
+    show t.d4.forms = _
+    rw [hr]
+    have : t.d3.forms = db.forms := by
+      show π t.d3 = _
+      rw [k3, k2, k1]; rfl
+    rw [this]
+  · intro r hr'
+    rw [hE]
+    exact hP r hr'
+
+theorem entries_eq_of_rowid (E : List REntry) (hn : (E.map (·.rowid)).Nodup) :
+    ∀ a ∈ E, ∀ b ∈ E, a.rowid = b.rowid → a = b := by
+  induction E with
+  | nil => intro a ha; simp at ha
+  | cons y Y ih =>
+    simp only [List.map_cons, List.nodup_cons, List.mem_map, not_exists, not_and] at hn
+    intro a ha b hb hab
+    rcases List.mem_cons.mp ha with e1 | ha' <;> rcases List.mem_cons.mp hb with e2 | hb'
+    · rw [e1, e2]
+    · rw [e1] at hab; exact absurd hab.symm (hn.1 b hb')
+    · rw [e2] at hab; exact absurd hab (hn.1 a ha')
+    · exact ih hn.2 a ha' b hb' hab
+
+theorem any_append_false {α} (P : α → Bool) (old rows : List α) (h : ∀ r ∈ rows, P r = false) :
+    (old ++ rows).any P = old.any P := by
+  rw [List.any_append]
+  have : rows.any P = false := by
+    rw [List.any_eq_false]; intro r hr; simp [h r hr]
+  rw [this, Bool.or_false]
+
+theorem frame_helper_sorted {α β} (k : α → Nat) (P' P : α → Bool) (f' f : α → Option β) (old rows : List α)
+    (h1 : ∀ r ∈ rows, P' r = false) (h2 : ∀ o ∈ old, P' o = P o) (h3 : ∀ o ∈ old, f' o = f o) :
+    (sortBy k ((old ++ rows).filter P')).filterMap f' = (sortBy k (old.filter P)).filterMap f := by
+  rw [List.filter_append]
+  have e1 : rows.filter P' = [] := by
+    rw [List.filter_eq_nil_iff]; intro r hr; simp [h1 r hr]
+  rw [e1, List.append_nil, List.filter_congr h2]
+  apply filterMap_congr_mem
+  intro o ho
+  exact h3 o (List.mem_filter.mp ((C01.sortBy_perm k _).mem_iff.mp ho)).1
+
+/-- **C04, frame for `words()`, end to end, any form query**: adding a *plain* lexicon (not an
+extension) outside a non-empty selection `S` leaves `words()` restricted to `S` unchanged — for any
+id, any list of queried forms (with or without normalised matching and `search_all_forms`), any
+part of speech — provided the stored entries have unique rowids and point at stored lexicons.  The
+restriction to plain lexicons is essential: an extension attaches forms to the entries of its base
+(finding F13). -/
+theorem C04_frame_words_end_to_end (norm : String → String) (dr : Nat) (db db' : Db) (l : Doc.Lexicon)
+    (h : addLexicon norm dr db l = .ok db') (hplain : l.ext = none) (S : List Nat) (hS : S ≠ [])
+    (hout : nextId (db.lexicons.map (·.rowid)) ∉ S)
+    (hfkE : ∀ o ∈ db.entries, o.lex ∈ db.lexicons.map (·.rowid))
+    (hnE : (db.entries.map (·.rowid)).Nodup)
+    (id : Option String) (forms : List String) (pos : Option String) (n a : Bool) :
+    findEntries db' id forms pos S n a = findEntries db id forms pos S n a := by
+  obtain ⟨t⟩ := addLexicon_split norm dr db db' l h
+  obtain ⟨_, _, hlexid, hext⟩ := insertLexicon_frame _ _ _ _ _ t.hlex
+  have hlexid : t.lexid = nextId (db.lexicons.map (·.rowid)) := hlexid
+  have hlid : ∀ i, t.ctx.lid i = t.lexid := by
+    intro i
+    unfold Ctx.lid AddTrace.ctx
+    simp [hext hplain]
+  obtain ⟨hE, _, _⟩ := addLexicon_sense_table t
+  obtain ⟨_, _, g3⟩ := insertLexicon_frame2 _ _ _ _ _ t.hlex
+  have e2 := (keepsF_insertSynsets l _ _ _ t.hsyn).1
+  obtain ⟨erows, hEx, hnew⟩ : ∃ erows, db'.entries = db.entries ++ erows ∧ ∀ r ∈ erows, r.lex = t.lexid := by
+    have h3 := t.hent
+    unfold insertEntries at h3
+    obtain ⟨_, er, he, hF⟩ := foldlM_rows1 (fun d => d.entries) (fun _ => ()) (entryStep t.ctx) (fun _ _ r => r.lex = t.lexid)
+      (fun b a b' hh => by
+        obtain ⟨r, hb, hr, _⟩ := entryStep_ok _ b b' a hh
+        exact ⟨rfl, r, by rw [hb], hr.2.1⟩) _ _ _ h3
+    exact ⟨er, by rw [hE, he, e2, g3]; rfl, Forall2.forall_right (P := fun (r : REntry) => r.lex = t.lexid) (fun _ _ hr => hr) hF⟩
+  have hnE' : (db'.entries.map (·.rowid)).Nodup := by
+    rw [hE]
+    apply insertEntries_nodupE _ _ _ _ t.hent
+    rw [e2, g3]; exact hnE
+  obtain ⟨frows, hFx, hNF⟩ := addLexicon_forms_table' t
+  have hfresh : ∀ o ∈ db.entries, o.lex ≠ t.lexid := by
+    intro o ho e
+    have := hfkE o ho
+    rw [e, hlexid] at this
+    exact nextId_not_mem _ this
+  have key : ∀ e ∈ db.entries, ∀ r ∈ frows, (r.entry == e.rowid) = false := by
+    intro e he r hr
+    obtain ⟨_, x, hx, hxr, i, hxl⟩ := hNF r hr
+    rw [hlid] at hxl
+    cases hb : r.entry == e.rowid with
+    | false => rfl
+    | true =>
+      exfalso
+      have hre : r.entry = e.rowid := by simpa using hb
+      have : x = e := entries_eq_of_rowid _ hnE' x hx e (by rw [hEx]; exact List.mem_append_left _ he) (by rw [hxr, hre])
+      exact hfresh e he (by rw [← this]; exact hxl)
+  have hflt : ∀ e ∈ db.entries, db'.forms.filter (fun f => f.entry == e.rowid) = db.forms.filter (fun f => f.entry == e.rowid) := by
+    intro e he
+    rw [hFx, List.filter_append]
+    have : frows.filter (fun f => f.entry == e.rowid) = [] := by
+      rw [List.filter_eq_nil_iff]; intro r hr; simp [key e he r hr]
+    rw [this, List.append_nil]
+  have hfm : ∀ e ∈ db.entries, formMatch db' forms n a e.rowid = formMatch db forms n a e.rowid := by
+    intro e he
+    unfold formMatch
+    rw [hFx]
+    apply any_append_false
+    intro r hr
+    simp [key e he r hr]
+  unfold findEntries
+  rw [hEx]
+  apply frame_helper_sorted
+  · intro r hr
+    have : inLexOrAll S r.lex = false := by
+      rw [hnew r hr, hlexid]
+      have h1 := mem_inLexOrAll S hS (nextId (db.lexicons.map (·.rowid)))
+      cases hb : inLexOrAll S (nextId (db.lexicons.map (·.rowid))) with
+      | false => rfl
+      | true => exact absurd (h1.mp hb) hout
+    simp [this]
+  · intro o ho
+    rw [hfm o ho]
+  · intro o ho
+    simp only [hflt o ho]
+
+
+/-! ### frames for the per-entry / per-synset sense listings and for syntactic behaviours -/
+
+theorem inLex_false_of_not_mem (S : List Nat) (x : Nat) (h : x ∉ S) : inLex S x = false := by
+  unfold inLex
+  cases hb : S.contains x with
+  | false => rfl
+  | true => exact absurd (by simpa using hb) h
+
+theorem flatMap_frame {α β} (f' f : α → List β) (old rows : List α) (h1 : ∀ r ∈ rows, f' r = [])
+    (h2 : ∀ o ∈ old, f' o = f o) : (old ++ rows).flatMap f' = old.flatMap f := by
+  rw [List.flatMap_append]
+  have : rows.flatMap f' = [] := by
+    rw [List.flatMap_eq_nil_iff]; exact h1
+  rw [this, List.append_nil]
+  clear this h1
+  induction old with
+  | nil => rfl
+  | cons a t ih =>
+    rw [List.flatMap_cons, List.flatMap_cons, h2 a (List.mem_cons_self ..), ih (fun o ho => h2 o (List.mem_cons_of_mem _ ho))]
+
+/-- the lookups `senseData` does for stored senses are unaffected by an add -/
+theorem senseData_frame (norm : String → String) (dr : Nat) (db db' : Db) (l : Doc.Lexicon)
+    (h : addLexicon norm dr db l = .ok db') (t : AddTrace norm dr db db' l)
+    (hfkE : ∀ o ∈ db.senses, o.entry ∈ db.entries.map (·.rowid))
+    (hfkY : ∀ o ∈ db.senses, o.synset ∈ db.synsets.map (·.rowid)) :
+    ∃ srows, db'.senses = db.senses ++ srows ∧ (∀ r ∈ srows, r.lex = t.lexid) ∧
+      ∀ o ∈ db.senses, senseData db' o = senseData db o := by
+  obtain ⟨hE, hY2, srows, hSn, hFs, _⟩ := addLexicon_sense_table t
+  obtain ⟨_, g2, g3⟩ := insertLexicon_frame2 _ _ _ _ _ t.hlex
+  have e2 := (keepsF_insertSynsets l _ _ _ t.hsyn).1
+  obtain ⟨erows, hEx⟩ : ∃ erows, db'.entries = db.entries ++ erows := by
+    have h3 := t.hent
+    unfold insertEntries at h3
+    obtain ⟨_, er, he, _⟩ := foldlM_rows1 (fun d => d.entries) (fun _ => ()) (entryStep _) (fun _ _ _ => True)
+      (fun b a b' hh => by
+        obtain ⟨r, hb, _⟩ := entryStep_ok _ b b' a hh
+        exact ⟨rfl, r, by rw [hb], trivial⟩) _ _ _ h3
+    exact ⟨er, by rw [hE, he, e2, g3]; rfl⟩
+  obtain ⟨yrows, _, hYx, _, _⟩ := C01.addLexicon_synset_tables norm dr db db' l h
+  refine ⟨srows, hSn, Forall2.forall_right (P := fun (r : RSense) => r.lex = t.lexid) (fun _ _ hr => hr.2.1) hFs, ?_⟩
+  intro o ho
+  obtain ⟨e, he, her⟩ := List.mem_map.mp (hfkE o ho)
+  obtain ⟨y, hy, hyr⟩ := List.mem_map.mp (hfkY o ho)
+  unfold senseData
+  rw [hEx, hYx, find?_append_of_exists _ _ _ ⟨e, he, by simp [her]⟩, find?_append_of_exists _ _ _ ⟨y, hy, by simp [hyr]⟩]
+
+
+/-- **C04, frame for `Word.senses()`, end to end**: adding any lexicon outside `S` leaves the senses
+listed for an entry within `S` unchanged -/
+theorem C04_frame_entry_senses_end_to_end (norm : String → String) (dr : Nat) (db db' : Db) (l : Doc.Lexicon)
+    (h : addLexicon norm dr db l = .ok db') (S : List Nat)
+    (hout : nextId (db.lexicons.map (·.rowid)) ∉ S)
+    (hfkE : ∀ o ∈ db.senses, o.entry ∈ db.entries.map (·.rowid))
+    (hfkY : ∀ o ∈ db.senses, o.synset ∈ db.synsets.map (·.rowid)) (entry : Nat) :
+    entrySenses db' entry S = entrySenses db entry S := by
+  obtain ⟨t⟩ := addLexicon_split norm dr db db' l h
+  have hlexid : t.lexid = nextId (db.lexicons.map (·.rowid)) := (insertLexicon_frame _ _ _ _ _ t.hlex).2.2.1
+  obtain ⟨srows, hSn, hnew, hsd⟩ := senseData_frame norm dr db db' l h t hfkE hfkY
+  unfold entrySenses
+  rw [hSn]
+  apply frame_helper_sorted
+  · intro r hr
+    simp [hnew r hr, hlexid, inLex_false_of_not_mem S _ hout]
+  · intro o _; rfl
+  · exact hsd
+
+/-- **C04, frame for `Synset.senses()` / `Synset.words()`, end to end**: the members of a synset
+within `S` are unchanged by adding a lexicon outside `S` -/
+theorem C04_frame_synset_members_end_to_end (norm : String → String) (dr : Nat) (db db' : Db) (l : Doc.Lexicon)
+    (h : addLexicon norm dr db l = .ok db') (S : List Nat)
+    (hout : nextId (db.lexicons.map (·.rowid)) ∉ S)
+    (hfkE : ∀ o ∈ db.senses, o.entry ∈ db.entries.map (·.rowid))
+    (hfkY : ∀ o ∈ db.senses, o.synset ∈ db.synsets.map (·.rowid)) (synset : Nat) :
+    synsetMembers db' synset S = synsetMembers db synset S := by
+  obtain ⟨t⟩ := addLexicon_split norm dr db db' l h
+  have hlexid : t.lexid = nextId (db.lexicons.map (·.rowid)) := (insertLexicon_frame _ _ _ _ _ t.hlex).2.2.1
+  obtain ⟨srows, hSn, hnew, hsd⟩ := senseData_frame norm dr db db' l h t hfkE hfkY
+  unfold synsetMembers
+  rw [hSn]
+  apply frame_helper_sorted
+  · intro r hr
+    simp [hnew r hr, hlexid, inLex_false_of_not_mem S _ hout]
+  · intro o _; rfl
+  · exact hsd
+
+/-- **C04, frame for `Sense.frames()`, end to end**: the subcategorisation frames reported for any
+sense within `S` are unchanged by adding a lexicon outside `S`, provided stored frames point at
+stored lexicons -/
+theorem C04_frame_sense_frames_end_to_end (norm : String → String) (dr : Nat) (db db' : Db) (l : Doc.Lexicon)
+    (h : addLexicon norm dr db l = .ok db') (S : List Nat)
+    (hout : nextId (db.lexicons.map (·.rowid)) ∉ S)
+    (hfk : ∀ o ∈ db.sbs, o.lex ∈ db.lexicons.map (·.rowid)) (sense : Nat) :
+    senseFrames db' sense S = senseFrames db sense S := by
+  obtain ⟨t⟩ := addLexicon_split norm dr db db' l h
+  have hlexid : t.lexid = nextId (db.lexicons.map (·.rowid)) := (insertLexicon_frame _ _ _ _ _ t.hlex).2.2.1
+  obtain ⟨_, _, ⟨brows, hB, hBn⟩, ⟨xrows, hX, hXn⟩⟩ := C05.addLexicon_misc_tables t
+  have hfresh : ∀ o ∈ db.sbs, o.lex ≠ t.lexid := by
+    intro o ho e
+    have := hfk o ho
+    rw [e, hlexid] at this
+    exact nextId_not_mem _ this
+  unfold senseFrames
+  rw [hB]
+  apply flatMap_frame
+  · intro r hr
+    simp [(hBn r hr).1, hlexid, inLex_false_of_not_mem S _ hout]
+  · intro o ho
+    have : db'.sbsenses.filter (fun x => x.sb == o.rowid && x.sense == sense) =
+        db.sbsenses.filter (fun x => x.sb == o.rowid && x.sense == sense) := by
+      rw [hX, List.filter_append]
+      have : xrows.filter (fun x => x.sb == o.rowid && x.sense == sense) = [] := by
+        rw [List.filter_eq_nil_iff]
+        intro r hr
+        obtain ⟨x, hx, hxl, hxr⟩ := hXn r hr
+        have hne : r.sb ≠ o.rowid := by
+          intro e
+          rw [hB] at hx
+          rcases List.mem_append.mp hx with hx | hx
+          · exact hfresh x hx hxl
+          · exact (hBn x hx).2 (List.mem_map.mpr ⟨o, ho, by rw [hxr, e]⟩)
+        simp [hne]
+      rw [this, List.append_nil]
+    rw [this]
+
+
+theorem mem_insertSb (a x : RSb) (l : List RSb) : x ∈ insertSb a l ↔ x = a ∨ x ∈ l := by
+  induction l with
+  | nil => simp [insertSb]
+  | cons b t ih =>
+    unfold insertSb
+    split
+    · simp
+    · simp only [List.mem_cons, ih]
+      constructor
+      · rintro (h | h | h)
+        · exact Or.inr (Or.inl h)
+        · exact Or.inl h
+        · exact Or.inr (Or.inr h)
+      · rintro (h | h | h)
+        · exact Or.inr (Or.inl h)
+        · exact Or.inl h
+        · exact Or.inr (Or.inr h)
+
+theorem mem_foldr_insertSb (x : RSb) (l : List RSb) : x ∈ l.foldr insertSb [] ↔ x ∈ l := by
+  induction l with
+  | nil => simp
+  | cons a t ih => rw [List.foldr_cons, mem_insertSb, ih]; simp
+
+theorem frame_helper_sb {β} (P' P : RSb → Bool) (f' f : RSb → Option β) (old rows : List RSb)
+    (h1 : ∀ r ∈ rows, P' r = false) (h2 : ∀ o ∈ old, P' o = P o) (h3 : ∀ o ∈ old, f' o = f o) :
+    (((old ++ rows).filter P').foldr insertSb []).filterMap f' = ((old.filter P).foldr insertSb []).filterMap f := by
+  rw [List.filter_append]
+  have e1 : rows.filter P' = [] := by
+    rw [List.filter_eq_nil_iff]; intro r hr; simp [h1 r hr]
+  rw [e1, List.append_nil, List.filter_congr h2]
+  apply filterMap_congr_mem
+  intro o ho
+  exact h3 o (List.mem_filter.mp ((mem_foldr_insertSb o _).mp ho)).1
+
+/-- **C04, frame for the syntactic behaviours of a selection (`find_syntactic_behaviours`, used by
+export and `Sense.frames`)**: unchanged by adding a lexicon outside a non-empty `S`, provided stored
+frames point at stored lexicons and stored frame–sense links at stored senses -/
+theorem C04_frame_sbs_end_to_end (norm : String → String) (dr : Nat) (db db' : Db) (l : Doc.Lexicon)
+    (h : addLexicon norm dr db l = .ok db') (S : List Nat) (hS : S ≠ [])
+    (hout : nextId (db.lexicons.map (·.rowid)) ∉ S)
+    (hfk : ∀ o ∈ db.sbs, o.lex ∈ db.lexicons.map (·.rowid))
+    (hfkS : ∀ o ∈ db.sbsenses, o.sense ∈ db.senses.map (·.rowid)) :
+    findSbs db' S = findSbs db S := by
+  obtain ⟨t⟩ := addLexicon_split norm dr db db' l h
+  have hlexid : t.lexid = nextId (db.lexicons.map (·.rowid)) := (insertLexicon_frame _ _ _ _ _ t.hlex).2.2.1
+  obtain ⟨_, _, ⟨brows, hB, hBn⟩, ⟨xrows, hX, hXn⟩⟩ := C05.addLexicon_misc_tables t
+  obtain ⟨_, _, srows, hSn, _, _⟩ := addLexicon_sense_table t
+  have hfresh : ∀ o ∈ db.sbs, o.lex ≠ t.lexid := by
+    intro o ho e
+    have := hfk o ho
+    rw [e, hlexid] at this
+    exact nextId_not_mem _ this
+  unfold findSbs
+  rw [hB]
+  apply frame_helper_sb
+  · intro r hr
+    rw [(hBn r hr).1, hlexid]
+    have h1 := mem_inLexOrAll S hS (nextId (db.lexicons.map (·.rowid)))
+    cases hb : inLexOrAll S (nextId (db.lexicons.map (·.rowid))) with
+    | false => rfl
+    | true => exact absurd (h1.mp hb) hout
+  · intro o _; rfl
+  · intro o ho
+    have e1 : db'.sbsenses.filter (fun x => x.sb == o.rowid) = db.sbsenses.filter (fun x => x.sb == o.rowid) := by
+      rw [hX, List.filter_append]
+      have : xrows.filter (fun x => x.sb == o.rowid) = [] := by
+        rw [List.filter_eq_nil_iff]
+        intro r hr
+        obtain ⟨x, hx, hxl, hxr⟩ := hXn r hr
+        have hne : r.sb ≠ o.rowid := by
+          intro e
+          rw [hB] at hx
+          rcases List.mem_append.mp hx with hx | hx
+          · exact hfresh x hx hxl
+          · exact (hBn x hx).2 (List.mem_map.mpr ⟨o, ho, by rw [hxr, e]⟩)
+        simp [hne]
+      rw [this, List.append_nil]
+    have e2 : (db.sbsenses.filter (fun x => x.sb == o.rowid)).filterMap
+          (fun x => (db'.senses.find? (fun s => s.rowid == x.sense)).map (·.id)) =
+        (db.sbsenses.filter (fun x => x.sb == o.rowid)).filterMap
+          (fun x => (db.senses.find? (fun s => s.rowid == x.sense)).map (·.id)) := by
+      apply filterMap_congr_mem
+      intro x hx
+      obtain ⟨s, hs, hsr⟩ := List.mem_map.mp (hfkS x (List.mem_filter.mp hx).1)
+      rw [hSn, find?_append_of_exists _ _ _ ⟨s, hs, by simp [hsr]⟩]
+    simp only [e1, e2]
+
 
 end WnVerif.Props.C04
